@@ -768,6 +768,11 @@ def abs_vec(z):
     return z.abs()
 
 
+def gen_densify(x):
+    import gen
+    return gen.densify(x)
+
+
 def mixed_chains(R, rng, sr, x, y, dt):
     """public-op chains that produce arrays whose blocks have different dtypes, then fuse them"""
     if x.ndim < 2:
@@ -811,6 +816,15 @@ def mixed_chains(R, rng, sr, x, y, dt):
                     got = z2.blocks.get(kk)
                     if got is None or np.asarray(got).dtype != np.asarray(want).dtype or not np.array_equal(np.asarray(got), np.asarray(want)):
                         bad.append((kk, None if got is None else str(np.asarray(got).dtype), str(np.asarray(want).dtype)))
+                # ... and its dense form holds every value (element type wide enough for all blocks)
+                if not bad:
+                    try:
+                        dz = np.asarray(z2.to_dense())
+                        wz_ = gen_densify(z2)
+                        if dz.shape != wz_.shape or not np.array_equal(dz.astype('complex128'), wz_):
+                            bad.append(('to_dense', str(dz.dtype), cd))
+                    except Exception as e:
+                        bad.append(('to_dense raises %s' % type(e).__name__, None, cd))
                 if bad:
                     R.failures.append({'oracle': 'block_dtype', 'op': 'add_' + order + '_other_sectors', 'result': 'sum', 'expected_dtype': cd,
                                        'got': [[str(k), d] for k, d in tags_of(z2)],
@@ -1080,6 +1094,20 @@ def run(ctx):
                     vkeys = [k[1] for k in m.blocks][: max(1, len(m.blocks) - rng.randrange(0, 2))]
                     v = sr.BlockVector({c: gauss(rng, (ix.chargemap[c],), dt) for c in vkeys})
                     matrix_ops(R, rng, sr, m, v, dt)
+        # charge labels that are numpy integers (what symmray.utils.rand_index produces for small Z2Z2 indices): the element
+        # type of eigenvalues / eigenvectors of a fermionic Hermitian matrix whose second leg is not dual
+        for dt in ('float32', 'float64', 'complex64', 'complex128'):
+            try:
+                cmz = {(np.int64(0), np.int64(0)): 2, (np.int64(0), np.int64(1)): 1, (np.int64(1), np.int64(0)): 2, (np.int64(1), np.int64(1)): 1}
+                ixz = sr.BlockIndex(cmz, dual=True)
+                hz = sr.FermionicArray.from_fill_fn(lambda shape: gauss(rng, shape, dt), [ixz, ixz.conj()], (0, 0), symmetry='Z2Z2')
+                for kk in list(hz.blocks):
+                    hz.blocks[kk] = (hz.blocks[kk] + np.conj(hz.blocks[kk]).T).astype(dt)
+                wz, evz = sr.linalg.eigh(hz)
+                R.oracle('eigh_numpy_int_charges', 'eigenvalues', wz, REAL[dt], [hz]); R.oracle('eigh_numpy_int_charges', 'eigenvectors', evz, dt, [hz])
+                ctx.nontrivial(('eigh_numpy_int_charges', dt))
+            except (ValueError, KeyError) as e:
+                ctx.note('eigh with numpy-integer charge labels: %s: %s' % (type(e).__name__, e))
         # an array without stored blocks: the example "array" is the Python float 0.0 (logged, not a violation)
         ix = sr.BlockIndex({0: 2, 1: 1}, dual=False)
         e = sr.AbelianArray([ix, ix.conj()], charge=0, blocks={}, symmetry='Z2')
